@@ -413,6 +413,60 @@ fn oracle_merge(t: &mut Toks, tier: Tier) -> Result<OracleOut, String> {
             break;
         }
     }
+    // deterministic corner redistributions: everything on ONE worker next to 0..3 empty deltas (the
+    // "at most one non-empty delta" shape), and one entry per worker
+    if !(has_p || has_m) {
+        for empties in 0..4usize {
+            for at in 0..=empties {
+                let mut ws2: Vec<W> = (0..empties).map(|_| W::S(Vec::new())).collect();
+                ws2.insert(at, W::S(pool.clone()));
+                let r = outcome_str(&sch::merge(results_of(&ws2)));
+                if r != base_s {
+                    o.fails.push((
+                        "C02.merge-order-sensitive.single-delta".into(),
+                        format!("all entries in one delta (slot {at}) next to {empties} empty deltas: [{r}] vs [{base_s}]"),
+                    ));
+                }
+            }
+        }
+        let ws3: Vec<W> = pool.iter().map(|e| W::S(vec![e.clone()])).collect();
+        let r = outcome_str(&sch::merge(results_of(&ws3)));
+        if r != base_s {
+            o.fails.push(("C02.merge-order-sensitive.one-per-worker".into(), format!("one entry per worker: [{r}] vs [{base_s}]")));
+        }
+        // independent of the merge: two DIFFERENT ops under one WarpOpKey must never commit, wherever
+        // the two sit (same delta, two deltas, next to empty deltas)
+        let mut divergent: Option<&'static str> = None;
+        let mut placed: Vec<(usize, &WarpOp)> = Vec::new();
+        for (wi, w) in ws.iter().enumerate() {
+            if let W::S(es) = w {
+                for (op, _) in es {
+                    placed.push((wi, op));
+                }
+            }
+        }
+        for (i, (wa, a)) in placed.iter().enumerate() {
+            for (wb, b) in placed.iter().skip(i + 1) {
+                if a.sort_key() == b.sort_key() && a != b {
+                    let here = if wa == wb { "same-worker" } else { "two-workers" };
+                    if divergent != Some("same-worker") {
+                        divergent = Some(here);
+                    }
+                }
+            }
+        }
+        if let Some(place) = divergent {
+            let nonempty = ws.iter().filter(|w| matches!(w, W::S(es) if !es.is_empty())).count();
+            o.tags.push(format!("samekey:{place}"));
+            o.tags.push(format!("nonempty-deltas:{}", nonempty.min(3)));
+            if matches!(base, sch::MergeOutcome::Ok(_)) {
+                o.fails.push((
+                    format!("C02.merge-conflict-accepted.{place}"),
+                    format!("two different ops share a WarpOpKey ({place}, {nonempty} non-empty of {} deltas) and the merge returned Ok", ws.len()),
+                ));
+            }
+        }
+    }
     o.tags.push(format!("res:{}", base_s.split(' ').take(2).collect::<Vec<_>>().join("-").replace("ok-", "ok").chars().take(16).collect::<String>()));
     if let sch::MergeOutcome::Ok(ops) = &base {
         if ops.len() < pool.len() {
@@ -464,9 +518,69 @@ fn gen_origin(rng: &mut Rng) -> String {
     format!("{} {} {} {}", rng.below(3), rng.below(2), rng.below(2), rng.below(3))
 }
 
+/// two DIFFERENT ops with the same `WarpOpKey`.
+fn gen_divergent_pair(rng: &mut Rng) -> (String, String) {
+    let w = *rng.pick(&WARPS);
+    let n = rng.range(1, 3);
+    match rng.below(3) {
+        0 => (
+            format!("UN {} {} {}", sid(w), sid(n), sid(0x10)),
+            format!("UN {} {} {}", sid(w), sid(n), sid(0x11)),
+        ),
+        1 => (
+            format!("SA na {} {} -", sid(w), sid(n)),
+            format!("SA na {} {} a {} {}", sid(w), sid(n), sid(0x70), hex(&[rng.below(2) as u8])),
+        ),
+        _ => (
+            format!("UE {} {} {} {} {}", sid(w), sid(0x21), sid(n), sid(1), sid(0x30)),
+            format!("UE {} {} {} {} {}", sid(w), sid(0x21), sid(n), sid(2), sid(0x30)),
+        ),
+    }
+}
+
+/// the same-key divergent pair on every placement: k = 1..=4 deltas, both ops in one delta or in two,
+/// the other deltas empty (half of the time) or carrying filler.
+fn gen_merge_divergent(rng: &mut Rng, rounds: usize) -> Vec<String> {
+    let mut out = Vec::new();
+    for _ in 0..rounds {
+        for k in 1..=4usize {
+            for a in 0..k {
+                for b in a..k {
+                    let (p, q) = gen_divergent_pair(rng);
+                    let filler = rng.chance(1, 2);
+                    let mut workers: Vec<Vec<String>> = vec![Vec::new(); k];
+                    if filler {
+                        for wk in workers.iter_mut() {
+                            for _ in 0..rng.below(3) {
+                                wk.push(format!("{} {}", gen_mop(rng), gen_origin(rng)));
+                            }
+                        }
+                    }
+                    let (first, second) = if rng.chance(1, 2) { (p, q) } else { (q, p) };
+                    let ia = rng.below(workers[a].len() as u64 + 1) as usize;
+                    workers[a].insert(ia, format!("{first} {}", gen_origin(rng)));
+                    let ib = rng.below(workers[b].len() as u64 + 1) as usize;
+                    workers[b].insert(ib, format!("{second} {}", gen_origin(rng)));
+                    let mut line = format!("{} {k}", sch::MERGE_VARIANT);
+                    for es in workers {
+                        line.push_str(&format!(" S {}", es.len()));
+                        for e in es {
+                            line.push(' ');
+                            line.push_str(&e);
+                        }
+                    }
+                    out.push(line);
+                }
+            }
+        }
+    }
+    out
+}
+
 fn gen_merge(rng: &mut Rng, tier: Tier) -> Vec<String> {
     let n = if tier == Tier::Thorough { 6000 } else { 600 };
-    let mut out = Vec::new();
+    // 20 placements per round: k=1:1, k=2:3, k=3:6, k=4:10
+    let mut out = gen_merge_divergent(rng, if tier == Tier::Thorough { 20 } else { 2 });
     for case in 0..n {
         let k = rng.range(if case % 10 == 0 { 0 } else { 1 }, 4);
         let mut workers: Vec<Vec<String>> = Vec::new();
